@@ -618,7 +618,7 @@ class LogicalLinkController(object):
             # there are more outbound PDUs and collect them into an AGF PDU.
             agf_pdu = pdu.AggregatedFrame(0, 0, [send_pdu])
             miu_size = self.cfg["send-miu"] - len(agf_pdu) - 3
-            while True:
+            while miu_size >= 0:
                 # The first loop will dequeue PDUs until the reamining miu_size
                 # is exhausted or all active SAP did not return a PDU.
                 deq_none = True
